@@ -4,7 +4,7 @@ import MM.Model.C39
 /-
   Engine c39: control request/response forwarding of the real agent against MM/Model/C39.lean.
 
-    reset | conn P | disc P | send T | req P id T [path…] | resp P id ok|fail tag
+    reset | conn P | disc P | send T | cancel id | req P id T [path…] | resp P id ok|fail tag
   answer: out=[…] pending=[ids] fwd=[id:peer …]
 -/
 namespace MM.Engine.C39
@@ -19,6 +19,7 @@ def showOut (a : Ag) : Out → Option String
     if a.peers.contains to then some s!"{to}:resp:{id}:{okStr ok}:{tag}" else none
   | .deliver id ok tag => some s!"deliver:{id}:{okStr ok}:{tag}"
   | .sendErr => some "senderr"
+  | .cancelled id => some s!"cancelled:{id}"
 
 def insertNat (x : Nat) : List Nat → List Nat
   | [] => [x]
@@ -30,11 +31,11 @@ def insertKV (e : Nat × Nat) : List (Nat × Nat) → List (Nat × Nat)
 
 /-- deliveries are printed before frames (the harness collects the caller's answer first). -/
 def render (a : Ag) (outs : List Out) : String :=
-  let isDel : Out → Bool := fun o => match o with | .deliver .. => true | .sendErr => true | _ => false
+  let isDel : Out → Bool := fun o => match o with | .deliver .. => true | .sendErr => true | .cancelled _ => true | _ => false
   let items := (outs.filter isDel ++ outs.filter (fun o => !isDel o)).filterMap (showOut a)
   let pend := ((a.pending.map (·.1)).foldr insertNat []).map toString
   let fwd := (a.fwd.foldr insertKV []).map (fun kv => s!"{kv.1}:{kv.2}")
-  s!"out=[{" ".intercalate items}] pending=[{" ".intercalate pend}] fwd=[{" ".intercalate fwd}]"
+  s!"out=[{" ".intercalate items}] pending=[{" ".intercalate pend}] fwd=[{" ".intercalate fwd}] next={a.next}"
 
 def step (a : Ag) (line : String) : Ag × String :=
   match tokens line with
@@ -47,6 +48,9 @@ def step (a : Ag) (line : String) : Ag × String :=
     (a', render a' [])
   | ["send", t] =>
     let (a', outs) := a.issue t.toNat!
+    (a', render a' outs)
+  | ["cancel", i] =>
+    let (a', outs) := a.cancel i.toNat!
     (a', render a' outs)
   | "req" :: p :: i :: t :: path =>
     let (a', outs) := a.onReq p.toNat! i.toNat! t.toNat! (path.map String.toNat!)
@@ -67,6 +71,8 @@ structure Rq where
   hop : Nat
   id : Nat
   origin : Option Nat    -- none = local caller
+  target : Nat := 0      -- whom the request is for (local requests: the agent the caller asked)
+  abandoned : Bool := false  -- local caller gave up; the request is still in flight and may be answered
   deriving DecidableEq
 
 structure SpecSt where
@@ -78,8 +84,12 @@ structure SpecSt where
 def ftag (s : SpecSt) (what : String) : String :=
   if s.collided then "c39-collision-" ++ what else "c39-" ++ what
 
+/-- The known finding is about two REQUESTERS sharing an id at this agent (two peers, or a peer and
+    the agent's own request).  Two requests of the agent itself under one id are a different defect
+    (id reuse by one originator) and are never excused. -/
 def addRq (s : SpecSt) (r : Rq) : SpecSt :=
-  { s with live := s.live ++ [r], collided := s.collided || s.live.any (fun x => x.id == r.id) }
+  { s with live := s.live ++ [r],
+           collided := s.collided || s.live.any (fun x => x.id == r.id && !(x.origin.isNone && r.origin.isNone)) }
 
 def parseItems (out : String) : List String :=
   match out.splitOn "out=[" with
@@ -96,19 +106,25 @@ def specStep (s : SpecSt) (l : String) : SpecSt × String :=
     | "reset" :: _ => ({}, "ok")
     | ["conn", p] => ({ s with peers := p.toNat! :: s.peers.filter (· != p.toNat!) }, "ok")
     | ["disc", p] => ({ s with peers := s.peers.filter (· != p.toNat!) }, "ok")
-    | ["send", _] =>
+    | ["send", t] =>
       -- a forwarded request of our own: read hop and id off the emitted frame
       match items with
       | [it] =>
         match it.splitOn ":" with
-        | [hop, "req", id, _, _] => (addRq s ⟨hop.toNat!, id.toNat!, none⟩, "ok")
+        | [hop, "req", id, _, _] =>
+          -- ids of one originator must not be reused while an earlier request may still be answered
+          if s.live.any (fun r => r.origin.isNone && r.id == id.toNat!) then
+            (addRq s ⟨hop.toNat!, id.toNat!, none, t.toNat!, false⟩, "fail c39-local-id-reused")
+          else (addRq s ⟨hop.toNat!, id.toNat!, none, t.toNat!, false⟩, "ok")
         | _ => (s, "ok")
       | _ => (s, "ok")
+    | ["cancel", i] =>
+      ({ s with live := s.live.map (fun r => if r.origin.isNone && r.id == i.toNat! then { r with abandoned := true } else r) }, "ok")
     | "req" :: p :: _ =>
       match items with
       | [it] =>
         match it.splitOn ":" with
-        | [hop, "req", id, _, _] => (addRq s ⟨hop.toNat!, id.toNat!, some p.toNat!⟩, "ok")
+        | [hop, "req", id, _, _] => (addRq s ⟨hop.toNat!, id.toNat!, some p.toNat!, 0, false⟩, "ok")
         | _ => (s, "ok")
       | _ => (s, "ok")
     | ["resp", p, i, ok, tag] =>
@@ -130,7 +146,7 @@ def specStep (s : SpecSt) (l : String) : SpecSt × String :=
         let s' := { s with live := s.live.erase r }
         let want : List String :=
           match r.origin with
-          | none => [s!"deliver:{i}:{ok}:{tag}"]
+          | none => if r.abandoned then [] else [s!"deliver:{i}:{ok}:{tag}"]   -- the caller of THIS request instance
           | some q => if s.peers.contains q then [s!"{q}:resp:{i}:{ok}:{tag}"] else []
         if items == want then (s', "ok")
         else if items.isEmpty then (s', "fail " ++ ftag s "dropped")
